@@ -230,6 +230,20 @@ fn independent_of(t: &T, x: Name, p: u32) -> bool {
 /// exists already), then the start term itself with free and bound names spelled like the library's next fresh
 /// slots - the situation of a term printed by another session and parsed back (no internally invented slot may
 /// capture them)
+thread_local! {
+    /// when set, rules that have a multi-pattern form are built in that form (fourth presentation)
+    static MULTI_FORM: std::cell::Cell<bool> = std::cell::Cell::new(false);
+}
+
+fn build_rule(spec: &RuleSpec) -> Rewrite<Ar> {
+    if MULTI_FORM.with(|m| m.get()) {
+        if let Some(r) = mk_rule_multi(spec) {
+            return r;
+        }
+    }
+    mk_rule(spec)
+}
+
 fn run<M: SubstMethod<Ar, ()> + 'static>(start: &T, rules_idx: &[usize], pl_iters: usize, primes: &[u32], budget: usize, presentation: u8) -> (Vec<Fail>, u64, u64, Vec<u64>, u64) {
     let fresh_names = presentation == 1;
     AR_FRESH_NAMES.with(|c| c.set(fresh_names));
@@ -243,7 +257,7 @@ fn run<M: SubstMethod<Ar, ()> + 'static>(start: &T, rules_idx: &[usize], pl_iter
     // drive through apply_rewrites
     {
         let mut eg = EGraph::<Ar>::with_subst_method::<M>(());
-        let rules: Vec<Rewrite<Ar>> = rules_idx.iter().map(|i| mk_rule(&pool[*i])).collect();
+        let rules: Vec<Rewrite<Ar>> = rules_idx.iter().map(|i| build_rule(&pool[*i])).collect();
         if fresh_names {
             // every maximal binder-free sub-term of a renamed copy is inserted first: the binder nodes of the start term
             // are then the first NEW e-nodes (their bound slots get renamed to fresh ones at that moment)
@@ -365,7 +379,7 @@ fn run<M: SubstMethod<Ar, ()> + 'static>(start: &T, rules_idx: &[usize], pl_iter
     }
     // drive through a Runner (2 iterations)
     if fails.is_empty() {
-        let rules: Vec<Rewrite<Ar>> = rules_idx.iter().map(|i| mk_rule(&pool[*i])).collect();
+        let rules: Vec<Rewrite<Ar>> = rules_idx.iter().map(|i| build_rule(&pool[*i])).collect();
         let re = ar_recexpr(start);
         let r = catch(|| {
             let eg = EGraph::<Ar>::with_subst_method::<M>(());
@@ -406,7 +420,7 @@ impl Prop for RewriteProp {
         vec!["class_whose_node_has_redundant_slot", "cyclic_class", "symmetric_class", "rewrite_added_nodes", "rule_moving_term_under_binder_fired", "substitution_form_fired", "conditional_rule_fired", "start_term_inserted_on_top_of_a_class_that_had_lost_a_slot"]
     }
     fn rule(&self) -> String {
-        "Start terms: all terms of size <=3 (thorough 4) of the arithmetic language (numbers 0,1,2; two free slots; sum and let binders up to depth 2) plus eight binder-heavy terms. Rule sets: every subset of <=2 rules (triples too for the hand-made terms; thorough: triples for every term) of a 25-rule pool, the full pool, and let-subst pairs; subsets of <=1 rule are also run in a second presentation (a renamed copy of the start term inserted first, the start term's names spelled like the library's next fresh slots); every rule set in a third presentation when the start term has a sub-term whose model value ignores one of its slots (the proper sub-terms inserted bottom-up, such a sub-term united with a renamed copy before its parents exist: redundancy first, parents afterwards); for rule sets of at most two rules the same Rewrite objects are afterwards applied to a second e-graph in which a renamed copy of the start term was inserted first; SynExprSubst and ExtractionSubst; driven by apply_rewrites for up to 3 (4) iterations within a node budget and by Runner::run. Every rule is first self-tested to be an identity of the model for all admissible instantiations by small terms in F_5 and F_7. After insertion and after EVERY iteration: class value tables are built by least fixpoint and EVERY e-node of EVERY class is evaluated under ALL environments of its slots in F_5 (thorough also F_7; `sum $x b` = b[1]+b[2]+b[3], NOT the sum over the whole field, which would annihilate every summand of degree < p-1) including slots the class does not have, and the root class is compared with the directly evaluated start term. Non-trivial = executions in which rewriting added nodes is a coverage goal; states = progress fingerprints after each iteration.".into()
+        "Start terms: all terms of size <=3 (thorough 4) of the arithmetic language (numbers 0,1,2; two free slots; sum and let binders up to depth 2) plus eight binder-heavy terms. Rule sets: every subset of <=2 rules (triples too for the hand-made terms; thorough: triples for every term) of a 25-rule pool, the full pool, and let-subst pairs; subsets of <=1 rule are also run in a second presentation (a renamed copy of the start term inserted first, the start term's names spelled like the library's next fresh slots); every rule set in a third presentation when the start term has a sub-term whose model value ignores one of its slots (the proper sub-terms inserted bottom-up, such a sub-term united with a renamed copy before its parents exist: redundancy first, parents afterwards); for rule sets of at most two rules the same Rewrite objects are afterwards applied to a second e-graph in which a renamed copy of the start term was inserted first; rule sets that contain one of seven rules with a multi-pattern form (sub-self, add/mul-comm, add/mul-zero, neg-add, distrib) once more with those rules built as multi-pattern rules (multi_ematch, the matched class united with the instantiated right side); SynExprSubst and ExtractionSubst; driven by apply_rewrites for up to 3 (4) iterations within a node budget and by Runner::run. Every rule is first self-tested to be an identity of the model for all admissible instantiations by small terms in F_5 and F_7. After insertion and after EVERY iteration: class value tables are built by least fixpoint and EVERY e-node of EVERY class is evaluated under ALL environments of its slots in F_5 (thorough also F_7; `sum $x b` = b[1]+b[2]+b[3], NOT the sum over the whole field, which would annihilate every summand of degree < p-1) including slots the class does not have, and the root class is compared with the directly evaluated start term. Non-trivial = executions in which rewriting added nodes is a coverage goal; states = progress fingerprints after each iteration.".into()
     }
     fn assumptions(&self) -> Vec<String> {
         vec!["environments are enumerated completely for the prime fields p=5 (and 7), not drawn at random; an unsound merge that is an identity in both fields is invisible".into(), "e-graphs above the node budget are not evaluated".into()]
@@ -451,6 +465,18 @@ impl Prop for RewriteProp {
                 r.0.extend(r2.0);
                 r.1 += r2.1;
                 r.2 |= r2.2;
+                r.3.extend(r2.3);
+                r.4 += r2.4;
+            }
+            // fourth presentation: the rules that have one in their multi-pattern form (multi_ematch + union of the matched
+            // class with the instantiated right side)
+            let pool = rule_pool();
+            if !ext && r.0.is_empty() && rs2.iter().any(|i| multi_form(pool[*i].name).is_some()) {
+                MULTI_FORM.with(|m| m.set(true));
+                let r2 = run::<SynExprSubst>(&s2, &rs2, iters, &primes, budget, 0);
+                MULTI_FORM.with(|m| m.set(false));
+                r.0.extend(r2.0.into_iter().map(|(k, key, d)| (k, format!("[rules in multi-pattern form] {key}"), d)));
+                r.1 += r2.1;
                 r.3.extend(r2.3);
                 r.4 += r2.4;
             }
